@@ -149,7 +149,7 @@ bool StepScript(InterpreterEnv& env)
         env.execdata_history.push_back(env.execdata);
         env.opcode_pos_history.push_back(env.opcode_pos);
 
-        if (!StepScript(env, pc)) {
+        auto undo_history = [&env]() {
             // undo above pushes
             env.stack_history.pop_back();
             env.altstack_history.pop_back();
@@ -159,6 +159,16 @@ bool StepScript(InterpreterEnv& env)
             env.pbegincodehash_history.pop_back();
             env.execdata_history.pop_back();
             env.opcode_pos_history.pop_back();
+        };
+        bool stepped;
+        try {
+            stepped = StepScript(env, pc);
+        } catch (...) {
+            undo_history();
+            throw;
+        }
+        if (!stepped) {
+            undo_history();
             return false;
         }
 
